@@ -177,15 +177,19 @@ func (s *Swarm) getConn(ctx context.Context, addr Addr) (*Conn, error) {
 	}
 
 	s.mu.Lock()
-	defer s.mu.Unlock()
 	remoteAddr := c.RemoteAddr()
 	c2, exists := s.conns[remoteAddr.Key()]
+	if !exists {
+		s.conns[remoteAddr.Key()] = c
+		go c.loop(s.ctx)
+	}
+	s.mu.Unlock()
 	if exists {
+		// another caller connected to the same peer while this one was dialing: use its connection and
+		// release the one dialed here, which is in no table and would outlive Swarm.Close.
+		c.Close()
 		return c2, nil
 	}
-	s.conns[remoteAddr.Key()] = c
-	go c.loop(s.ctx)
-
 	return c, nil
 }
 
@@ -219,5 +223,9 @@ func (s *Swarm) addConn(c *Conn) {
 func (s *Swarm) deleteConn(c *Conn) {
 	s.mu.Lock()
 	defer s.mu.Unlock()
-	delete(s.conns, c.RemoteAddr().Key())
+	// only the connection that holds the entry takes it out: a connection that lost the race for the
+	// entry (getConn) shares its key with the one that won
+	if key := c.RemoteAddr().Key(); s.conns[key] == c {
+		delete(s.conns, key)
+	}
 }
